@@ -389,6 +389,22 @@ pub fn s_conn(cx: &mut Ctx) {
                 cx.ex.fail(&["C03"], m);
             }
         }
+        // every shape of up to three stacked negations (raw / simplifying) over a term and over a product
+        for pat in 0..8u32 {
+            for base in ["T {a}", "A T {a} T {b}", "o T {a} N T {b}"] {
+                let (a, b) = (*cx.rng.pick(&hs), *cx.rng.pick(&hs));
+                let mut e = base.replace("{a}", &a.to_string()).replace("{b}", &b.to_string());
+                for k in 0..3 {
+                    e = format!("{} {}", if (pat >> k) & 1 == 1 { "N" } else { "n" }, e);
+                    cx_op!(cx, format!("exprtree {}", e));
+                }
+            }
+        }
+        for _ in 0..40 {
+            let d = 1 + cx.rng.below(5) as u32;
+            let e = rand_exprtree(cx, &hs, d);
+            cx_op!(cx, format!("exprtree {}", e));
+        }
         for _ in 0..60 {
             let d = 1 + cx.rng.below(4) as u32;
             let e = gen_expr(cx, &hs, d);
@@ -515,6 +531,122 @@ pub fn s_split(cx: &mut Ctx) {
                 if k % 1024 == 0 {
                     cx.op("digest".into());
                 }
+            }
+        }
+        cx.end();
+    }
+    // arguments that are built from each other's sub-diagrams: a "tower" t0, t1 = node(v, a, t0),
+    // t2 = node(v', b, t1) … (each level has the previous one as a child), and ALL pairs of arguments
+    // f = node(x1, t_i, t_j), g = node(x1, t_k, t_l): every pointer coincidence between cofactors of
+    // the two arguments and their children occurs (children equal to the other argument's cofactor,
+    // to its child, to its complement …)
+    // quick: 16 towers with random side children; thorough: every combination of side children
+    // (false, true, complement of the previous level, an earlier level) for then-towers and else-towers
+    let towers = if cx.thorough { 512 } else { 16 };
+    for ti in 0..towers {
+        cx_begin!(cx, 6, format!("new 13 {} {}", 2 + ti % 4, 4 + ti % 6), 256);
+        let mut vs = vec![0usize];
+        for v in 1..=6 {
+            vs.push(cx_op!(cx, format!("var {}", v)));
+        }
+        let mut t: Vec<usize> = vec![];
+        // level 0 over variable 6
+        t.push(if ti % 4 < 2 { vs[6] } else { cx_op!(cx, format!("not {}", vs[6])) });
+        let as_else = ti % 2 == 1;
+        let code = if cx.thorough { ti / 2 } else { cx.rng.below(256) as usize };
+        for (lvl, v) in [5u32, 4, 3, 2].iter().enumerate() {
+            let prev = t[lvl];
+            // the other child
+            let other = match (code >> (2 * lvl)) & 3 {
+                0 => 1usize, // false
+                1 => 0,      // true
+                2 => cx_op!(cx, format!("not {}", prev)),
+                _ => {
+                    let x = t[cx.rng.below(t.len() as u64) as usize];
+                    if cx.rng.chance(1, 2) {
+                        x
+                    } else {
+                        cx_op!(cx, format!("not {}", x))
+                    }
+                }
+            };
+            let h = if as_else {
+                cx_op!(cx, format!("node {} {} {}", v, prev, other)) // previous level as the else-child
+            } else {
+                cx_op!(cx, format!("node {} {} {}", v, other, prev)) // previous level as the then-child
+            };
+            if cx.reply().starts_with("r ") {
+                t.push(h);
+            } else {
+                t.push(prev);
+            }
+        }
+        // three arguments over one top variable whose cofactors are taken from the same pool in every
+        // way (in particular cyclically: F1 = G0, G1 = H0, H1 = F0), each ITE asked cold and warm, with
+        // and without complemented arguments
+        if ti % 4 == 0 {
+            let mut pool: Vec<usize> = t.clone();
+            for &x in &t {
+                pool.push(cx_op!(cx, format!("not {}", x)));
+            }
+            pool.truncate(8);
+            let m = pool.len();
+            let mut made: HashMap<(usize, usize), usize> = HashMap::new();
+            let mut mk = |cx: &mut Ctx, a: usize, b: usize| -> usize {
+                if let Some(&h) = made.get(&(a, b)) {
+                    return h;
+                }
+                let h = cx_op!(cx, format!("node 1 {} {}", pool[a], pool[b]));
+                made.insert((a, b), h);
+                h
+            };
+            for a in 0..m {
+                for b in 0..m {
+                    for c in 0..m {
+                        if a == b || b == c {
+                            continue;
+                        }
+                        let (f, g, h) = (mk(cx, a, b), mk(cx, b, c), mk(cx, c, a));
+                        let ng = cx_op!(cx, format!("not {}", g));
+                        let nh = cx_op!(cx, format!("not {}", h));
+                        let nf = cx_op!(cx, format!("not {}", f));
+                        for (x, y, z) in [(f, g, h), (f, ng, h), (f, ng, nh), (f, g, nh), (nf, g, h), (g, h, f)] {
+                            let r1 = cx_op!(cx, format!("ite {} {} {}", x, y, z));
+                            let r2 = cx_op!(cx, format!("ite {} {} {}", x, y, z));
+                            if cx.ex.env[r1] != cx.ex.env[r2] {
+                                let msg = format!("the same ITE asked twice gives {} then {}", crate::exec::show_ref(cx.ex.env[r1]), crate::exec::show_ref(cx.ex.env[r2]));
+                                cx.ex.fail(&["C07", "C02"], msg);
+                            }
+                        }
+                    }
+                }
+                cx.op("digest".into());
+            }
+        }
+        let n = t.len();
+        for i in 0..n {
+            for j in 0..n {
+                if i == j {
+                    continue;
+                }
+                let f = cx_op!(cx, format!("node 1 {} {}", t[i], t[j]));
+                for k in 0..n {
+                    for l in 0..n {
+                        if k == l {
+                            continue;
+                        }
+                        let g = cx_op!(cx, format!("node 1 {} {}", t[k], t[l]));
+                        cx_op!(cx, format!("restrict {} {}", f, g));
+                        cx_op!(cx, format!("constrain {} {}", f, g));
+                        if (i + j + k + l) % 3 == 0 {
+                            cx_op!(cx, format!("compose {} {} {}", f, 2 + (i + k) % 5, g));
+                            cx_op!(cx, format!("ite {} {} {}", g, f, t[(i + l) % n]));
+                            cx_op!(cx, format!("itec {} {} {}", f, g, t[(j + k) % n]));
+                            cx_op!(cx, format!("implies {} {}", f, g));
+                        }
+                    }
+                }
+                cx.op("digest".into());
             }
         }
         cx.end();
@@ -997,6 +1129,58 @@ pub fn s_huge(cx: &mut Ctx) {
             }
         }
         cx.op("digest".into());
+        // (a2) arguments whose cells are EXACTLY 2^15 / 2^16 / 2^17 apart (the lower index with that bit
+        // clear), as the two cofactors of one argument of compose / constrain / restrict / ITE
+        {
+            let mut cell: HashMap<u64, (usize, bool)> = HashMap::new();
+            for &h in filler.iter() {
+                let r = cx.ex.env[h];
+                cell.entry(r.index() as u64).or_insert((h, r.is_negated()));
+            }
+            let regular = |cx: &mut Ctx, i: u64| -> usize {
+                let (h, neg) = cell[&i];
+                if neg {
+                    cx_op!(cx, format!("not {}", h))
+                } else {
+                    h
+                }
+            };
+            let maxidx = cell.keys().copied().max().unwrap_or(0);
+            let f1 = cx_op!(cx, format!("xor {} {}", vars[0], vars[1]));
+            let f2 = cx_op!(cx, format!("eq {} {}", vars[1], vars[2]));
+            let f3 = cx_op!(cx, format!("ite {} {} {}", vars[0], vars[2], vars[1]));
+            let tries = if cx.thorough { 12 } else { 4 };
+            for bit in [15u32, 16, 17] {
+                let delta = 1u64 << bit;
+                let mut done = 0;
+                for _ in 0..2000 {
+                    if done >= tries {
+                        break;
+                    }
+                    let a = 100 + cx.rng.below(maxidx.saturating_sub(delta + 100).max(1));
+                    if a & delta != 0 || !cell.contains_key(&a) || !cell.contains_key(&(a + delta)) {
+                        continue;
+                    }
+                    done += 1;
+                    let (ha, hb) = (regular(cx, a), regular(cx, a + delta));
+                    let g = cx_op!(cx, format!("node 1 {} {}", ha, hb));
+                    let g2 = cx_op!(cx, format!("node 2 {} {}", hb, ha));
+                    for &f in &[f1, f2, f3] {
+                        cx_op!(cx, format!("compose {} 2 {}", f, g));
+                        cx_op!(cx, format!("compose {} 1 {}", f, g2));
+                    }
+                    cx_op!(cx, format!("compose {} 1 {}", g, f2));
+                    cx_op!(cx, format!("constrain {} {}", f1, g));
+                    cx_op!(cx, format!("restrict {} {}", f3, g));
+                    cx_op!(cx, format!("constrain {} {}", g, f1));
+                    cx_op!(cx, format!("restrict {} {}", g2, f2));
+                    cx_op!(cx, format!("ite {} {} {}", f1, g, g2));
+                    cx_op!(cx, format!("itec {} {} {}", f1, g, g2));
+                    cx_op!(cx, format!("subst {} 1 1", g));
+                    cx_op!(cx, format!("size {}", g));
+                }
+            }
+        }
         lap("counting done");
         // (b) a collection that keeps the whole filler: holes only at the bottom and at the top, a run of
         // more than 2^16 occupied cells in between; then allocations that must find both groups of holes
@@ -2347,6 +2531,76 @@ pub fn s_raw(cx: &mut Ctx, dbg: bool) {
             cx.samples.push(cx.ex.lines[start..].iter().take(10).cloned().collect());
         }
     }
+    // guided histories: drive the table towards "no live entry, tombstones everywhere, hardly a FREE
+    // slot" by reading the slot states (hook) and always choosing the removal that leaves a tombstone
+    // (the successor slot is not FREE); when every remaining entry sits before a FREE slot, fill that
+    // slot first. Identity hashes, so a key's home slot is key mod capacity.
+    let guided = if cx.thorough { 40 } else { 6 };
+    for gi in 0..guided {
+        cx.ex.begin_case();
+        cx_op!(cx, format!("raw.new 1 {}", if dbg { 1 } else { 0 }));
+        let target = [7usize, 15, 31, 15, 63, 15][gi % 6]; // fill to capacity - 1
+        let mut next_key = 0u64;
+        for _ in 0..target {
+            cx_op!(cx, format!("raw.insert {} {}", next_key, next_key % 97));
+            next_key += 1;
+        }
+        cx.op("raw.dump".into());
+        const FREE_W: u64 = u64::MAX;
+        for _step in 0..600 {
+            let (st, len, free) = cx.ex.raw.debug_slots();
+            let cap = st.len();
+            if cap == 0 || (len == 0 && free <= 1) {
+                break;
+            }
+            let occupied: Vec<usize> = (0..cap).filter(|&i| st[i] <= (u64::MAX >> 1)).collect();
+            // (a) an entry whose successor slot is not FREE: removing it leaves a tombstone
+            let cand: Vec<usize> = occupied.iter().copied().filter(|&i| st[(i + 1) % cap] != FREE_W).collect();
+            // (c) a FREE slot whose successor is not FREE: an entry put there dies into a tombstone
+            let fillable: Vec<usize> = (0..cap).filter(|&j| st[j] == FREE_W && st[(j + 1) % cap] != FREE_W).collect();
+            if !cand.is_empty() && (gi % 5 != 4 || cx.rng.chance(5, 6)) {
+                let i = *cx.rng.pick(&cand);
+                cx_op!(cx, format!("raw.remove {}", st[i]));
+            } else if free >= 2 && !fillable.is_empty() && gi % 3 != 2 {
+                // (no growth: `reserve(2)` is satisfied) a fresh key whose home slot is j
+                let j = *cx.rng.pick(&fillable);
+                let mut k = j as u64;
+                while k < next_key {
+                    k += cap as u64;
+                }
+                next_key = k + 1;
+                cx_op!(cx, format!("raw.insert {} {}", k, 7));
+            } else if !occupied.is_empty() {
+                let i = *cx.rng.pick(&occupied);
+                cx_op!(cx, format!("raw.remove {}", st[i]));
+            } else {
+                break;
+            }
+        }
+        cx.op("raw.dump".into());
+        cx.op("raw.len".into());
+        cx.op("raw.iter".into());
+        // whatever state was reached: everything must still terminate and behave like a map
+        for r in 0..3u64 {
+            cx_op!(cx, format!("raw.get {}", 1000 + r));
+            cx_op!(cx, format!("raw.reserve {}", 1 + r));
+            cx_op!(cx, format!("raw.insert {} {}", 2000 + r * 17, r));
+            cx_op!(cx, format!("raw.find {}", 3000 + r));
+            cx_op!(cx, format!("raw.fof {}", 4000 + r * 5));
+            cx_op!(cx, format!("raw.remove {}", 2000 + r * 17));
+            cx_op!(cx, format!("raw.get {}", 2000 + r * 17));
+            cx.op("raw.len".into());
+            cx.op("raw.dump".into());
+        }
+        for k in 0..20u64 {
+            cx_op!(cx, format!("raw.insert {} {}", 5000 + k, k));
+            cx_op!(cx, format!("raw.get {}", 6000 + k));
+        }
+        cx.op("raw.iter".into());
+        cx.op("raw.clear".into());
+        cx_op!(cx, format!("raw.get {}", 5));
+        cx.op("raw.dump".into());
+    }
     // large tables: more than 2^16 live entries (2^17 and 2^18 slots), hashes with the top bit set
     // (kind 3), spread over all 64 bits (kind 4), identity (kind 1), descending from 2^64-1 (kind 6)
     let big_kinds: &[u64] = if cx.thorough { &[3, 4, 1, 6, 3] } else { &[3, 4] };
@@ -2476,6 +2730,22 @@ fn sized_tree(cx: &mut Ctx, n: u64, out: &mut Vec<String>) {
             let a = if cx.rng.chance(1, 4) { 1 + cx.rng.below(n - 2) } else { (n - 1) / 2 };
             sized_tree(cx, a, out);
             sized_tree(cx, n - 1 - a, out);
+        }
+    }
+}
+
+/// a random expression in constructor-by-constructor prefix notation (raw variants and the
+/// simplifying constructors mixed, so that e.g. Not directly over Not occurs)
+pub fn rand_exprtree(cx: &mut Ctx, hs: &[usize], depth: u32) -> String {
+    if depth == 0 || cx.rng.chance(1, 5) {
+        return format!("T {}", cx.rng.pick(hs));
+    }
+    match cx.rng.below(9) {
+        0 | 1 => format!("N {}", rand_exprtree(cx, hs, depth - 1)),
+        2 | 3 => format!("n {}", rand_exprtree(cx, hs, depth - 1)),
+        k => {
+            let op = ["A", "a", "O", "o", "X"][(k - 4) as usize];
+            format!("{} {} {}", op, rand_exprtree(cx, hs, depth - 1), rand_exprtree(cx, hs, depth - 1))
         }
     }
 }
